@@ -38,6 +38,22 @@ fn gen_args<'t>(r: &mut Rng, name: &str, graph: &mut Graph<'t>, info: &TreeInfo<
         Value::List((0..n).map(|_| f(r)).collect())
     };
     let mut args: Vec<Value> = match name {
+        "eq" if r.chance(1, 4) && !info.nodes.is_empty() => {
+            // two DIFFERENT syntax nodes: a node and the nearest node below it, down its first children, that has the same
+            // kind and the same start (left-nested `a + b + c`, `x.y.z`, `f(1)(2)`) — else its first child, else itself
+            let n = *r.pick(&info.nodes);
+            let mut d = n.child(0);
+            let mut found = None;
+            while let Some(c) = d {
+                if c.kind_id() == n.kind_id() && c.start_byte() == n.start_byte() {
+                    found = Some(c);
+                    break;
+                }
+                d = c.child(0);
+            }
+            let other = found.or(n.child(0)).unwrap_or(n);
+            vec![Value::SyntaxNode(graph.add_syntax_node(n)), Value::SyntaxNode(graph.add_syntax_node(other))]
+        }
         "eq" => {
             let a = any(r, graph);
             let b = if r.chance(1, 2) { a.clone() } else { any(r, graph) };
@@ -118,6 +134,8 @@ pub fn run(rep: &mut Report, tier: &str, seed: u64) {
         // one tree in six is made of constructs whose nodes the grammar produces through `alias(...)` (a one-line `if` body,
         // soft keywords used as identifiers, `not in` / `is not`, `with .. as ..`): their kind is the aliased name
         let src = if ti % 6 == 1 { "if x: pass\nmatch = 1\nprint = match\nwith f as g: pass\nfor *a, b in c: pass\nu = x not in y\nv = x is not y\nwhile z: break\n".to_string() } else { src };
+        // ... and one in six of left-nested expressions: different nodes of one kind that start at the same place
+        let src = if ti % 6 == 3 { "q = a + b + c + d\nw = x.y.z.k\nf(1)(2)(3)\nv = a[0][1][2]\nu = a and b and c\n".to_string() } else { src };
         let tree = parse_python(&src);
         let info = TreeInfo::new(&tree);
         for v in info.contract_violations() {
